@@ -110,6 +110,31 @@ def independent_delta(a, seg, cs, H, ac):
     return out
 
 
+def unit_control(chk, MX):
+    """a deflection given with a unit is the converted number: for the surfaces, for the recorded control state and for the analyses that
+    perturb the recorded value"""
+    rng = chk.rng
+    ac = gen.simple_wing_aircraft(N=3)
+    sd = {"solver": {"type": "nonlinear"}, "scene": {"atmosphere": {"rho": 0.0023769}}}
+    st = {"velocity": 100.0, "alpha": 3.0}
+    val = round(rng.uniform(-0.12, 0.12), 4)
+    try:
+        a = gen.build_scene(MX, sd, [("a", ac, st, {"elevator": [val, "rad"], "aileron": 2.0})])
+        b = gen.build_scene(MX, sd, [("a", ac, st, {"elevator": math.degrees(val), "aileron": 2.0})])
+        ra, rb = a.control_derivatives()["a"], b.control_derivatives()["a"]
+        ta, tb = a.pitch_trim(set_trim_state=False)["a"], b.pitch_trim(set_trim_state=False)["a"]
+    except Exception as e:
+        if type(e).__name__ in ("SolverNotConvergedError", "MaxIterationError"):
+            chk.count("unit-control-nonconverged")
+            return
+        chk.violation("unit-control:raises", dict(kind="controls", setting={"elevator": [val, "rad"]}, error=repr(e)))
+        return
+    chk.case(dict(kind="unit-control"), nontrivial=True)
+    bad = api.compare(dict(cd=ra, trim=ta, state=a._airplanes["a"].current_control_state), dict(cd=rb, trim=tb, state=b._airplanes["a"].current_control_state), rtol=2e-6, atol=1e-8)
+    if bad:
+        chk.violation("unit-control:differs", dict(kind="controls", setting={"elevator": [val, "rad"]}, differences=bad[:6]))
+
+
 def run(chk):
     MX = common.setup_env()
     import machupX.helpers as H
@@ -158,8 +183,9 @@ def run(chk):
                         chk.violation("mapping:%s" % seg.side, dict(kind="controls", aircraft=ac, setting=cs, segment=seg.name, got=seg._delta_flap, expected=exp))
             for c in a.control_names:
                 v = a.current_control_state[c]
-                expv = cs.get(c, 0.0)
-                same = (v == expv) if not isinstance(expv, list) else (v == expv)
+                # what is recorded is the value in the default unit (a number, or the table as given), zero for a control that was not named
+                expv = H.import_value(c, cs, sd.get("units", "English"), 0.0)
+                same = bool(np.allclose(np.asarray(v, dtype=float), np.asarray(expv, dtype=float), rtol=1e-12, atol=0.0)) if np.shape(v) == np.shape(expv) else False
                 if not same:
                     chk.violation("replace-semantics", dict(kind="controls", control=c, stored=v, given=cs.get(c, "<missing>")))
             try:
@@ -185,6 +211,7 @@ def run(chk):
         dCL = np.array(d[seg]["section_CL"])[idx] - np.array(base[seg]["section_CL"])[idx]
         if not (idx and np.all(sign * dCL > 0)):
             chk.violation("sign-convention:%s:%s" % (ctrl, seg), dict(kind="controls", control=ctrl, segment=seg, dCL=dCL.tolist()))
+    unit_control(chk, MX)
     failing, nfiles, errors = common.run_cases("C15", IMPORTS, [], cases)
     chk.cov["traces_validated_against_impl"] = len(cases)
     chk.cov["correspondence_cases"] = len(cases)
